@@ -1,13 +1,35 @@
 (* Props/C02.v -- property theorems only: Theorem / exact lemma / Check (pins the statement) / Print Assumptions.
-   C02: determinant and inverse agree with exact linear algebra.
-   Notions (Proofs/LUPrim.v): ent m i j = the (i,j) entry of the flat buffer; shape m r c = wf m /\ rows m = r /\ cols m = c;
-   mprod n X Y r c = sum_{k<n} X r k * Y k c; unit_lower / upper = the two triangular parts of the in-place LU buffer;
-   perm_by_swaps n piv P sw = P is the identity with its rows exchanged by the piv genuine transpositions sw.
-   PivLaws (abs x = 0 <-> x = 0, x <> 0 -> 0 < |x|, not |x| < 0) is an auxiliary hypothesis the code genuinely needs: the skip of a
-   zero pivot column is decided by Signed::abs and PartialOrd::gt (with abs = const 0 the code's LU is not a factorisation). *)
+   C02: determinant and inverse agree with exact linear algebra; matrix left intact.
+
+   Notions (Proofs/LUPrim.v): ent m i j = the (i,j) entry of the flat row-major buffer; shape m r c = wf m /\ rows m = r /\ cols m = c;
+   mprod n X Y r c = sum_{k<n} X r k * Y k c; mvprod n X v r = sum_{k<n} X r k * v k; delta i j = 1 if i = j else 0;
+   unit_lower / upper = the two triangular parts of the in-place LU buffer; perm_by_swaps n piv P sw = P is the identity with its rows
+   exchanged by the piv genuine (a <> b) transpositions sw; tabulate n n f (Proofs/LUTab.v) = the matrix with entries f i j as the
+   code stores it (every wf matrix is the tabulation of its entries: tabulate_ent_id).
+
+   Hypotheses.  FieldLaws A (Base/Arith.v): field_theory for A's operations, eqb decides equality, div x y = Panic DivZero when y = 0
+   and x * y^-1 otherwise (what the exact Rust types do).  PivLaws A (Proofs/LUPrim.v) -- an auxiliary hypothesis the code genuinely
+   needs, absent from DESIGN Appendix E:
+       pl_abs0 : abs x = zero <-> x = zero      pl_pos : x <> zero -> ltb zero (abs x) = true      pl_nneg : ltb (abs x) zero = false
+   i.e. Signed::abs and PartialOrd::lt behave like a magnitude.  lu_decomp_in_place decides "skip this column" by `max_a == 0` where
+   max_a is the running maximum of |a_ki| under the strict test |a| > max_a; with a degenerate abs (say abs = const 0) every column
+   is skipped and P*M <> L*U, so no theorem below holds under FieldLaws alone.  Both records are PROVED, not assumed, for the
+   arithmetics the code is used at: Qc (AQ_FieldLaws in Inst/QcInst.v, AQ_PivLaws in Proofs/LUQc.v -- the instance the exact tier of
+   the correspondence check runs against the Rust Rat), R with Rabs and < (AR_FieldLaws, AR_PivLaws in Proofs/LUReal.v), C = R[i]
+   with the code's Signed::abs = (|z|, 0) and its lexicographic PartialOrd (CR_FieldLaws, CR_PivLaws, same file), and every mathcomp
+   numFieldType instance such as rat (rat_PivLaws in Bridge/Det.v).  See the Examples `laws_hold_at_*` below.
+
+   "Matrix left intact".  determinant and inverse take &self and work on a clone; in the value model they are functions
+   matrix -> res T / matrix -> res matrix that return no modified operand, so the statement is true by typing and there is nothing to
+   prove about the model.  What can go wrong in Rust (an &self method writing through interior mutability or unsafe) is observed at
+   run time: the executor snapshots the operand before determinant()/inverse() and compares it bit for bit afterwards (kinds mat.det,
+   mat.inverse in harness/src/k_matrix.rs; a difference is reported as a violation of C02).
+
+   Floating point.  The theorems are exact-arithmetic statements about the same Gallina functions whose float instances (AF, ACF)
+   are compared with the implementation; rounding accuracy of det/inverse over f64/Complex<f64> is tied and searched, not proved. *)
 From Coq Require Import List Arith.
 From OV Require Import Base.Panic Base.Arith Inst.QcInst Model.Vector Model.Matrix Model.Solve
-  Proofs.Matrix Proofs.LUPrim Proofs.LUSum Proofs.LU Proofs.LUSolve Proofs.LUInv Proofs.LUInvC Proofs.LUPanic Proofs.LUSolveC Proofs.LUQc.
+  Proofs.Matrix Proofs.LUPrim Proofs.LUSum Proofs.LU Proofs.LUSolve Proofs.LUInv Proofs.LUInvC Proofs.LUPanic Proofs.LUSolveC Proofs.LUQc Proofs.LUReal.
 Import ListNotations.
 
 Theorem lu_spec : forall (A : Arith), FieldLaws A -> PivLaws A -> forall M : matrix A, wf M -> rows M = cols M ->
@@ -90,6 +112,14 @@ Check inverse_result : forall (A : Arith), FieldLaws A -> PivLaws A -> forall (M
 Print Assumptions inverse_result.
 Example inverse_result_nonvacuous : wf M3 /\ rows M3 = cols M3 /\ 1 <= rows M3 /\ is_ok (determinant M3) = true.
 Proof. split; [reflexivity|]. split; [reflexivity|]. split; [repeat constructor|]. vm_compute. reflexivity. Qed.
+
+(* the hypotheses are met by the arithmetics the code is used at (proved instances, not assumptions) *)
+Example laws_hold_at_Qc : PivLaws AQ.  Proof. exact AQ_PivLaws. Qed.
+Example field_laws_at_Qc : FieldLaws AQ := AQ_FieldLaws.
+Example laws_hold_at_R : PivLaws AR.  Proof. exact AR_PivLaws. Qed.
+Example field_laws_at_R : FieldLaws AR := AR_FieldLaws.
+Example laws_hold_at_C : PivLaws CR.  Proof. exact CR_PivLaws. Qed.
+Example field_laws_at_C : FieldLaws CR := CR_FieldLaws.
 
 (* ---------- the mathcomp half (Bridge/Det.v, Bridge/Inv.v): the model's determinant IS \det ---------- *)
 (* For every mathcomp fieldType F (mathcomp's rat included) with any abs/ltb meeting PivLaws, the arithmetic ArithOf F abs ltb leb
